@@ -218,11 +218,12 @@ func (rc realCase) name() string {
 	return fmt.Sprintf("%s/%s/start=%d", rc.transport, m, rc.start)
 }
 
+// keyKindOf: how the transport's table / matcher is keyed (pinned by the regenerated facts, theorem C01_fact_tables).
 func keyKindOf(transport string) string {
 	if transport == "stdio" {
 		return "int64"
 	}
-	return "sprintfV"
+	return "idKey"
 }
 
 // judge turns the observations of one run into (a) the per-id outcome map for the model diff, (b) oracle verdicts.
@@ -245,7 +246,7 @@ func judge(c *hk.Ctx, rc realCase, res []callRes, idOf func(nonce string) (strin
 			n, _ := strconv.ParseInt(id, 10, 64)
 			if n >= 1000000 && rc.transport != "stdio" && rc.transport != "stream-json" {
 				c.Violate(hk.Violation{Fingerprint: "pending:answer-lost-from-1e6:" + rc.transport,
-					What:     "from request id 1000000 on the client no longer recognises the answer to its own request: the call gets nothing (ends only by timeout/cancel or 'no final response') although the connection is up and the server answered [D01: fmt.Sprintf(\"%v\", float64(1000000)) = \"1e+06\" vs \"1000000\"]",
+					What:     "from request id 1000000 on the client does not recognise the answer to its own request: the call gets nothing (ends only by timeout/cancel or 'no final response') although the connection is up and the server answered [D01: fmt.Sprintf(\"%v\", float64(1000000)) = \"1e+06\" vs \"1000000\"]",
 					Input:    map[string]any{"case": rc.name(), "request_id": id, "nonce": r.nonce},
 					Observed: r.err, Expected: "the call returns the server's answer echo:" + r.nonce})
 			} else {
@@ -319,7 +320,7 @@ func emitPosts(c *hk.Ctx, rc realCase, done map[string]string) {
 		if rc.transport == "stream-json" {
 			c.Emit(map[string]any{"c": "pending.postJson", "id": map[string]any{"int": n}, "body": n}, map[string]any{"out": done[id]}, n >= 999999, "real-stream-json")
 		} else {
-			c.Emit(map[string]any{"c": "pending.postSse", "call": n, "handlers": false, "evs": []any{map[string]any{"id": map[string]any{"int": n}, "body": n}}},
+			c.Emit(map[string]any{"c": "pending.postSse", "kind": keyKindOf(rc.transport), "call": n, "handlers": false, "evs": []any{map[string]any{"id": map[string]any{"int": n}, "body": n}}},
 				map[string]any{"out": done[id]}, n >= 999999, "real-stream-sse")
 		}
 	}
@@ -434,7 +435,7 @@ func realLegacy(c *hk.Ctx, rc realCase) {
 				// which call was that? the frame carried the echoed id: find the nonce whose request id renders (as float64) to k
 				wl.mu.Lock()
 				for nonce, raw := range wl.idOf {
-					if f, ok := decodeNum(raw); ok && fmt.Sprintf("%v", interface{}(f)) == k {
+					if f, ok := decodeNum(raw); ok && (mcp.VerifRequestIDKey(f) == k || fmt.Sprintf("%v", interface{}(f)) == k) {
 						if cf, ok := cancels.Load(nonce); ok {
 							cf.(context.CancelFunc)()
 						}
